@@ -69,7 +69,7 @@ CHECKS = {
 
 # phases added during the rounds of seeded changes (DESIGN.md 9.5), appended to the level text
 ADDED = {
- "C01": "Also: symbol names with spaces, indented blank separators, overlapping numeric boundaries of ids/minutes/lines.",
+ "C01": "Also: symbol names with spaces and indented blank separators (ids up to 18 digits and one-digit minutes were in the generator from the start).",
  "C03": "Also: generated file-system layouts (incl. paths that are a detected root plus a short remainder) through scan/guess/analyse/aggregate/render; pp on reports whose stacks lie in one location class; every number of a real traceback (sources present) replaced by every boundary value of a decimal parser.",
  "C04": "Also: a struct copy of the snapshot with another goroutine list and the snapshot after a goroutine was removed (each aggregation answers for the goroutines held at that moment), the empty snapshot, snapshots whose crashing goroutine is not element 0, race-style snapshots with descending ids.",
  "C05": "Also: resolved snapshots, same frame under another root, multi-call creator stacks, non-pointer siblings of pointers, '?' and '_' twins.",
